@@ -6,6 +6,7 @@ import (
 	"fmt"
 	"go/token"
 	"go/types"
+	"strings"
 	"unicode/utf8"
 
 	"golang.org/x/tools/go/ssa"
@@ -756,6 +757,9 @@ func (i *interpreter) raceAccess(fr *frame, addr *value, write bool) {
 	at := ""
 	if fr != nil {
 		at = fr.where()
+	}
+	if strings.Contains(at, "/zz_") {
+		return // harness bookkeeping (ghost counters) is not part of the program under analysis
 	}
 	// conflict with last write?
 	if c.wG >= 0 && c.wG != g.id && c.wC > clk(g.vc, c.wG) {
